@@ -80,9 +80,9 @@ class Closure:
         m, R, T = _lib()
         self.T = T
         t = m._preprocess_string(text)
-        # labels (#tag) are cut out before matching; what remains (incl. the doubled
-        # blank where a label stood) is the text the patterns see
-        t = re.sub("#[a-zA-Z0-9_-]+", "", t).strip()
+        # labels (#tag) are cut out before matching; what remains (normalised to single
+        # blanks again) is the text the patterns see
+        t = re.sub(" +", " ", re.sub("#[a-zA-Z0-9_-]+", "", t)).strip()
         self.cleaned = t
         # 1 all matches of all patterns
         seen = {}
